@@ -551,7 +551,7 @@ func run(r *lib.Run) {
 	r.SetRule("cases = seeded histories of 200 operations {put, overwrite, get, get of a one-bit neighbour, flush, compact, close+reopen} over pools of 8..31 32-byte ids " +
 		"(random, Hamming distance 1, first/last byte differing, node id xor small), values of 0/1/31..33/1k/20k..50k bytes with a unique (history, put#) header, random node ids; " +
 		"2 of 3 histories with a capacity no put can reach (strict oracle), 1 of 3 with 1 MB (prunes interleaved), 1 of 4 through the history hybrid adapter; " +
-		"plus twin histories (1 MB capacity, far ids with 100..300 kB values that are refused once the radius has shrunk) in which a second store never sees the refused puts and must stay observably identical; "+
+		"plus twin histories (1 MB capacity, far ids with 100..300 kB values that are refused once the radius has shrunk) in which a second store never sees the refused puts and must stay observably identical; " +
 		"plus churn histories that push tens of MB through one store while holding returned slices, and >memtable values. " +
 		"distinct_nontrivial = histories that contained at least one overwrite and one close+reopen (plus churn / big-value histories)")
 	r.Assume("reference: sequential map id -> last accepted value; an id may go value -> absent only in the small-capacity regime and then stays absent until the next put")
